@@ -155,6 +155,7 @@ func fieldRange(st *types.Struct, i int) (int, int) {
 type Step struct {
 	field int   // field index, or -1 for index step
 	idx   *Term // BV64 index for index steps
+	lo, n *Term // for an element of a slice: the window [lo, lo+n) of the backing array the slice covers
 }
 
 // PtrInfo describes where a pointer (or array-backed slice) points.
